@@ -19,14 +19,14 @@ func init() {
 		ID: "C06", Level: "exploration", Primary: "pipeline_shapes", EvalCount: "requests_numbered",
 		Rule: "one pipeline = N (1..256) requests of mixed operations on one connection, message IDs a random permutation-like draw (so Request.ID cannot be confused with the message ID), written in one " +
 			"segment or dribbled; some requests have no route (gaps in the observed numbering); a PRNG-chosen subset of handlers parks on a rendezvous: handler i returns only after handler i+d " +
-			"(or a handler on a second connection) has entered; a second family of pipelines performs a real StartTLS upgrade in the middle (numbering must continue across it); a third has its first handler blocked inside Write by a client that does not read (later handlers must still be entered); a fourth repeats message IDs within the pipeline (requests identified by DN, every handler waiting for all others); a fifth keeps a handler blocked while its own connection ends (FIN, reset, Unbind, malformed frame) and requires connections that exist already and connections made afterwards to be served meanwhile; a sixth sends N requests and, in the same write, an Unbind / half-close / close (every request that was read is handed to its handler). Oracle: Request.ID == 1-based position in the client's send order for every handler invocation; every rendezvous completes. " +
+			"(or a handler on a second connection) has entered; a second family of pipelines performs a real StartTLS upgrade in the middle (numbering must continue across it); a third has its first handler blocked inside Write by a client that does not read (later handlers must still be entered); a fourth repeats message IDs within the pipeline (requests identified by DN, every handler waiting for all others); a fifth keeps a handler blocked while its own connection ends (FIN, reset, Unbind, malformed frame) and requires connections that exist already and connections made afterwards to be served meanwhile; a sixth sends N requests and, in the same write, an Unbind / half-close / close (every request that was read is handed to its handler); a seventh has a handler that outlives the server's read timeout while the client is silent, then further requests on that connection (whatever is still served carries its arrival position); every fourth mixed pipeline runs on a server created WithDisablePanicRecovery. Oracle: Request.ID == 1-based position in the client's send order for every handler invocation; every rendezvous completes. " +
 			"distinct_nontrivial = distinct (N, operation mix, rendezvous pattern, write mode) signatures with at least one satisfied rendezvous",
 		Assume: []string{"extended requests are identified by the exact-name route that served them (their message ID is not exposed to handlers)",
 			"a rendezvous that does not complete within the watchdog is judged only by the recorded enter/exit order (serial dispatch), otherwise inconclusive"},
 		Phases: func(tier string, seed int64) []Phase {
 			return []Phase{{Name: "pipelines", Run: c06Run}}
 		},
-		MinObserved: []string{"requests_numbered", "rendezvous_satisfied", "cross_connection_rendezvous_satisfied", "pipelines_with_starttls_upgrade", "pipelines_with_a_handler_blocked_in_write", "requests_served_through_the_default_route", "pipelines_with_repeated_message_ids", "connections_served_while_another_connections_handler_is_blocked", "fire_and_forget_pipelines"},
+		MinObserved: []string{"requests_numbered", "rendezvous_satisfied", "cross_connection_rendezvous_satisfied", "pipelines_with_starttls_upgrade", "pipelines_with_a_handler_blocked_in_write", "requests_served_through_the_default_route", "pipelines_with_repeated_message_ids", "connections_served_while_another_connections_handler_is_blocked", "fire_and_forget_pipelines", "pipelines_on_a_server_without_panic_recovery", "connections_with_a_handler_outliving_the_read_timeout"},
 	})
 }
 
@@ -207,7 +207,12 @@ func c06Pipeline(c *Ctx, r *Rand, idx int) {
 		}
 		return -1, nil
 	}
-	srv, err := startSrv(SrvCfg{}, func(m *gldap.Mux) {
+	// every fourth pipeline runs on a server created WithDisablePanicRecovery (no handler of this workload panics)
+	noRecover := idx%4 == 1
+	if noRecover {
+		c.Count("pipelines_on_a_server_without_panic_recovery", 1)
+	}
+	srv, err := startSrv(SrvCfg{DisableRecover: noRecover}, func(m *gldap.Mux) {
 		gen := func(w *gldap.ResponseWriter, req *gldap.Request) {
 			o := observe("", req)
 			ci, q := findGeneric(req, o)
@@ -680,6 +685,73 @@ func c06OddMessageIDs(c *Ctx, r *Rand, idx int) {
 	}
 }
 
+// c06BeyondReadTimeout: a server with a read timeout, a handler that runs for longer than that while the client sends
+// nothing, then further requests on the connection. Whether the connection survives the timeout is not this
+// property's business; whatever reaches a handler must carry its arrival position as Request.ID.
+func c06BeyondReadTimeout(c *Ctx, r *Rand, idx int) {
+	rt := time.Duration(80+r.Intn(120)) * time.Millisecond
+	hold := rt*2 + time.Duration(r.Intn(200))*time.Millisecond
+	var mu sync.Mutex
+	got := map[int]int{}
+	srv, err := startSrv(SrvCfg{ReadTimeout: rt}, func(m *gldap.Mux) {
+		m.Delete(func(w *gldap.ResponseWriter, req *gldap.Request) {
+			dm, err := req.GetDeleteMessage()
+			if err != nil {
+				return
+			}
+			var pos int
+			fmt.Sscanf(dm.DN, "cn=p%d", &pos)
+			mu.Lock()
+			got[pos] = req.ID
+			mu.Unlock()
+			if pos == 1 {
+				time.Sleep(hold)
+			}
+			w.Write(req.NewResponse(gldap.WithApplicationCode(gldap.ApplicationDelResponse), gldap.WithResponseCode(0)))
+		})
+	})
+	if err != nil {
+		c.Inconclusive("server start: " + err.Error())
+		return
+	}
+	defer srv.StopWithin(patience)
+	cn, err := net.Dial("tcp", srv.Addr)
+	if err != nil {
+		c.Inconclusive("dial: " + err.Error())
+		return
+	}
+	defer cn.Close()
+	cl := wrapClient(cn)
+	n := 2 + r.Intn(4)
+	cn.Write(sber.Message(1, sber.DelRequest([]byte("cn=p1")), nil).Encode())
+	c.Count("connections_with_a_handler_outliving_the_read_timeout", 1)
+	if _, err := cl.ReadMsg(patience); err == nil {
+		// the connection is still there: go on using it
+		for i := 2; i <= n; i++ {
+			if _, err := cn.Write(sber.Message(int64(i), sber.DelRequest([]byte(fmt.Sprintf("cn=p%d", i))), nil).Encode()); err != nil {
+				break
+			}
+			if _, err := cl.ReadMsg(2 * time.Second); err != nil {
+				break
+			}
+		}
+	}
+	mu.Lock()
+	defer mu.Unlock()
+	c.Count("requests_numbered", int64(len(got)))
+	if len(got) > 1 {
+		c.Count("requests_served_after_the_read_timeout_passed", int64(len(got)-1))
+	}
+	c.Distinct("pipeline_shapes", fmt.Sprintf("beyond-read-timeout/%d", len(got)))
+	for pos, rid := range got {
+		if rid != pos {
+			c.Violate("Request.ID is not the arrival position", fmt.Sprintf("server with a %s read timeout, first handler held %s: the request at position %d was numbered %d", rt, hold, pos, rid),
+				map[string]any{"read_timeout_ms": rt.Milliseconds(), "first_handler_held_ms": hold.Milliseconds(), "numbers_seen": got})
+			break
+		}
+	}
+}
+
 // c06OtherConnections: a handler of connection A stays blocked (on something that is not socket I/O) while A itself
 // ends - by FIN, reset, Unbind or a malformed frame. Whatever the server does about A, nothing on OTHER connections may
 // wait for that handler: connections that exist already and connections made afterwards are served within 10s while
@@ -884,6 +956,9 @@ func c06Run(c *Ctx) {
 	}
 	for i := 0; i < c.N(60, 900); i++ {
 		c06FireAndForget(c, c.Rng.Sub(fmt.Sprintf("ff%d", i)), i)
+	}
+	for i := 0; i < c.N(8, 100); i++ {
+		c06BeyondReadTimeout(c, c.Rng.Sub(fmt.Sprintf("rt%d", i)), i)
 	}
 	for i := 0; i < c.N(15, 200); i++ {
 		c06OtherConnections(c, c.Rng.Sub(fmt.Sprintf("oc%d", i)), i)
